@@ -41,6 +41,31 @@ async fn lb_world(n: usize, algo: &str) -> (World, Arc<dyn Connector>) {
     (w, lb)
 }
 
+/// a world with `leaves` recording members m0.. and several round-robin balancers (defined in order: a balancer may list
+/// an earlier balancer as a member)
+async fn multi_lb_world(leaves: usize, lbs: &[(&str, Vec<String>)]) -> (World, Vec<Arc<dyn Connector>>) {
+    let names: Vec<String> = (0..leaves).map(|i| format!("m{}", i)).collect();
+    let conns: Vec<(String, Vec<Feature>)> = names.iter().map(|s| (s.clone(), vec![Feature::TcpForward])).collect();
+    let mut w = world(&conns, 10);
+    for c in w.conns.iter() {
+        c.fail.store(true, std::sync::atomic::Ordering::SeqCst);
+    }
+    let mut out = vec![];
+    for (name, members) in lbs {
+        let yaml = format!("name: {}\ntype: loadbalance\nconnectors: [{}]", name, members.join(", "));
+        let v: serde_yaml::Value = serde_yaml::from_str(&yaml).unwrap();
+        let mut lb = crate::connectors::from_value(&v).expect("lb config");
+        lb.init().await.expect("lb init");
+        let lb: Arc<dyn Connector> = lb.into();
+        Arc::get_mut(&mut w.state).unwrap().connectors.insert(name.to_string(), lb.clone());
+        out.push(lb);
+    }
+    for lb in out.iter() {
+        lb.verify(w.state.clone()).await.expect("lb verify");
+    }
+    (w, out)
+}
+
 /// one selection: returns (index of the member whose connect() was invoked, connector name recorded on the context)
 async fn select(w: &World, lb: &Arc<dyn Connector>, r: &Req) -> (Vec<String>, Option<String>) {
     let ctx = w.state.contexts.create_context(r.listener.clone(), r.source).await;
@@ -86,6 +111,59 @@ pub async fn run(out: &mut Out) {
                             out.oracle_fail("rr-unfair", &format!("n={} window {}..{} selects member {} {} times, expected {}", n, start, start + j * n, m, win.iter().filter(|&&x| x == m).count(), j));
                         }
                     }
+                }
+            }
+        }
+    }
+    // ---- several balancers in one process: each keeps its own rotation (two side by side; one nested in another)
+    for (na, nb) in [(2usize, 2usize), (2, 3), (3, 2), (1, 4), (4, 4)] {
+        let a: Vec<String> = (0..na).map(|i| format!("m{}", i)).collect();
+        let b: Vec<String> = (na..na + nb).map(|i| format!("m{}", i)).collect();
+        let (w, lbs) = multi_lb_world(na + nb, &[("lba", a), ("lbb", b)]).await;
+        let k = if thorough { 60 } else { 24 };
+        // the schedule: which balancer gets the next request (alternating, with runs)
+        let sched: Vec<usize> = (0..k).map(|i| if rng.chance(1, 4) { rng.below(2) } else { i % 2 }).collect();
+        let mut seqs: [Vec<usize>; 2] = [vec![], vec![]];
+        for &which in sched.iter() {
+            let (called, rec) = select(&w, &lbs[which], &reqs[0]).await;
+            if called.len() != 1 || rec.as_deref() != Some(called[0].as_str()) {
+                out.oracle_fail("recorded-not-used", &format!("connect() invoked on {:?}, context records {:?}", called, rec));
+            }
+            seqs[which].push(called.first().map(|s| idx_of(s)).unwrap_or(999));
+        }
+        let show = |v: &Vec<usize>| v.iter().map(|x| x.to_string()).collect::<Vec<_>>().join(",");
+        out.case(&format!("RR2 {} {} {}", na, nb, sched.iter().map(|x| x.to_string()).collect::<String>()), &format!("{} | {}", show(&seqs[0]), show(&seqs[1])));
+        out.stat("rr_two_balancers");
+        for (which, (n, base)) in [(na, 0usize), (nb, na)].iter().enumerate() {
+            let seq = &seqs[which];
+            if seq.len() >= *n {
+                for start in 0..=(seq.len() - n) {
+                    for m in *base..(base + n) {
+                        let c = seq[start..start + n].iter().filter(|&&x| x == m).count();
+                        if c != 1 {
+                            out.oracle_fail("rr-unfair", &format!("two balancers (sizes {} and {}) used alternately: balancer {} selects member {} {} times in {} consecutive selections of its own: {:?}", na, nb, which, m, c, n, &seq[start..start + n]));
+                        }
+                    }
+                }
+            }
+        }
+    }
+    {
+        // nested: outer = [in1, in2], in1 = [m0, m1], in2 = [m2, m3]
+        let (w, lbs) = multi_lb_world(4, &[("in1", vec!["m0".into(), "m1".into()]), ("in2", vec!["m2".into(), "m3".into()]), ("outer", vec!["in1".into(), "in2".into()])]).await;
+        let k = 16;
+        let mut seq = vec![];
+        for _ in 0..k {
+            let (called, _rec) = select(&w, &lbs[2], &reqs[0]).await;
+            seq.push(called.first().map(|s| idx_of(s)).unwrap_or(999));
+        }
+        out.case(&format!("RRN {}", k), &seq.iter().map(|x| x.to_string()).collect::<Vec<_>>().join(","));
+        out.stat("rr_nested");
+        for start in 0..=(k - 4) {
+            for m in 0..4 {
+                let c = seq[start..start + 4].iter().filter(|&&x| x == m).count();
+                if c != 1 {
+                    out.oracle_fail("rr-unfair", &format!("nested balancers outer=[in1,in2] in1=[m0,m1] in2=[m2,m3]: leaf m{} selected {} times in 4 consecutive selections {:?}", m, c, &seq[start..start + 4]));
                 }
             }
         }
